@@ -9,7 +9,7 @@
 //   model     : one independent instance per key of the source key set, created fresh when the key
 //               appears, destroyed when it disappears
 //   oracle    : after every engine cycle (clock-driven checker ranked below the map node), for every key:
-//                 output has the key  <=> the source has the key (an element exists per live key)
+//                 output has the key  ==> the source has the key;  instance produced a value ==> output has the key
 //                 element valid       <=> the model instance has produced a value
 //                 element value       ==  the model instance's last value
 //                 element ticked      <=> the model instance wrote in this cycle
@@ -75,6 +75,7 @@ bool ok_keys = true, ok_valid = true, ok_value = true, ok_ticks = true, ok_forei
 bool r_removed = false, r_readd = false, r_fresh = false, r_phantom = false, r_three = false, r_five = false, r_wake = false,
      r_wake_dropped = false, r_bcast = false, r_silent = false, r_slot_reuse = false;
 bool ever_removed = false;
+bool had_state[NK];
 
 inline Int cyc(DateTime now) { return (now - MIN_ST).count(); }
 
@@ -202,6 +203,7 @@ bool step_instance(int k, Int c) {
     int a = g_act[k];
     if (a == A_REMOVE) {
         if (i.pending >= c) r_wake_dropped = true;
+        if (i.cnt > 0) had_state[k] = true;
         i = Inst{};
         r_removed = true; ever_removed = true;
         return false;
@@ -209,15 +211,19 @@ bool step_instance(int k, Int c) {
     if (a == A_ADDREMOVE) return false;
     bool tick = false;
     if (a == A_READD) {
-        if (i.cnt > 0) r_fresh = true;
-        i = Inst{};
-        i.exists = true;
+        // erase + set of a live key within ONE cycle is netted by the source dictionary (no key-set delta, see
+        // docs .../plans_and_ops/time_series.rst "structural collection changes are netted"): the map sees a plain
+        // update of a key that never left, so the instance continues.
         r_readd = true;
         tick = true;
     }
     if (a == A_PHANTOM) { i = Inst{}; i.exists = true; r_phantom = true; return false; }
     if (a == A_SET) {
-        if (!i.exists) { if (ever_removed) r_slot_reuse = true; i = Inst{}; i.exists = true; }
+        if (!i.exists) {
+            if (ever_removed) r_slot_reuse = true;
+            if (had_state[k]) r_fresh = true;
+            i = Inst{}; i.exists = true;
+        }
         tick = true;
     }
     if (!i.exists) return false;
@@ -277,7 +283,9 @@ struct Checker {
             if (i.exists) n_exist++;
             if (i.out_valid) n_valid++;
             bool has = bound && m.contains(Int{k});   // concrete: shape only
-            ok_keys &= (has == i.exists);
+            // the statement restricts the mirrored key set to children whose output is valid: a key whose child has
+            // not produced a value may or may not be present; any other key must follow the source key set
+            ok_keys &= (!has || i.exists) && (!i.out_valid || has);
             if (has) {
                 auto e = m.at(Int{k});
                 bool v = e.valid();
@@ -287,7 +295,7 @@ struct Checker {
             }
         }
         std::size_t sz = bound ? m.size() : 0;
-        ok_foreign &= (sz == (std::size_t)n_exist);
+        ok_foreign &= (sz >= (std::size_t)n_valid) && (sz <= (std::size_t)n_exist);
         if (any_event) ok_notified &= (g_obs_cycle == c);
         if (n_valid >= 3) r_three = true;
         if (n_valid >= 5) r_five = true;
@@ -336,7 +344,7 @@ extern "C" int harness_main() {
     verif_assert(ok_notified, "C10.consumer_notified");
     if (r_removed) verif_reach("key_removed");
     if (r_readd) verif_reach("key_removed_and_readded_same_cycle");
-    if (r_fresh) verif_reach("readded_key_had_state");
+    if (r_fresh) verif_reach("key_with_state_removed_and_added_later");
     if (r_slot_reuse) verif_reach("key_added_after_a_removal");
     if (r_phantom) verif_reach("phantom_key");
     if (r_three) verif_reach("three_valid");
